@@ -255,18 +255,14 @@ func (l *commitLog) AppendMessageSet(ms []byte) ([]int64, error) {
 }
 
 func (l *commitLog) append(segment *segment, ms []byte, entries []*entry) ([]int64, error) {
-	if err := segment.WriteMessageSet(ms, entries); err != nil {
-		return nil, err
-	}
-	if verifhook.Enabled {
-		if err := verifhook.Point("append.afterWrite"); err != nil {
-			return nil, err
-		}
-	}
 	var (
 		lastLeaderEpoch = l.leaderEpochCache.LastLeaderEpoch()
 		offsets         = make([]int64, len(entries))
 	)
+	// Record new leader epochs before the messages are written. If the process
+	// dies in between, the leader epoch checkpoint is ahead of the log, which
+	// recovery already handles (see New). The other order could leave messages
+	// in the log whose leader epoch the checkpoint never learned about.
 	for i, entry := range entries {
 		// Check if message is in a new leader epoch.
 		if entry.LeaderEpoch > lastLeaderEpoch {
@@ -277,6 +273,14 @@ func (l *commitLog) append(segment *segment, ms []byte, entries []*entry) ([]int
 			lastLeaderEpoch = entry.LeaderEpoch
 		}
 		offsets[i] = entry.Offset
+	}
+	if err := segment.WriteMessageSet(ms, entries); err != nil {
+		return nil, err
+	}
+	if verifhook.Enabled {
+		if err := verifhook.Point("append.afterWrite"); err != nil {
+			return nil, err
+		}
 	}
 	return offsets, nil
 }
